@@ -7,6 +7,10 @@ out = {}
 for d in sorted(glob.glob('/verif/seeded/C*-*')):
     name = os.path.basename(d); pid = name.split('-')[0]
     if only and pid not in only: continue
+    try:
+        pid = json.load(open(d + '/meta.json')).get('detected_by') or pid      # (a seed caught by another property's check)
+    except Exception:
+        pass
     r = subprocess.run(['/verif/tools/try_seed.sh', pid, d + '/patch.diff', 'quick', '6'], capture_output=True, text=True).stdout
     st = 'does-not-apply' if 'PATCH DOES NOT APPLY' in r else ('detected' if 'VIOLATION property=' + pid in r else 'MISSED')
     nfi = 'no-failing-input-found' in r
